@@ -25,6 +25,7 @@ WORKFLOWS = {
               'edges': [(0, 2, 1), (1, 2, 2)]},
 }
 MACHINES = {'m0': (1, 1), 'm1': (2, 1), 'm2': (1, 2), 'm3': (4, 4)}
+MACHINES_TWIN = {'m0': (1, 1), 'm1': (2, 1), 'm2': (2, 1), 'm3': (4, 4)}     # m1 and m2 have identical specifications
 SCENARIOS = [
     dict(name='one', obs=[('a', 0, 3, 18, 2, 1)]),
     dict(name='overlap', obs=[('a', 0, 6, 18, 2, 1), ('b', 2, 2, 18, 3, 1)]),
@@ -289,3 +290,111 @@ if __name__ == '__main__':
     props = sys.argv[1:] or None
     res = explore(props)
     print(json.dumps(dict(runs=res['runs'], failures=res['failures'][:40], n_failures=len(res['failures'])), indent=1))
+
+
+# ---------------------------------------------------------------------------------------------------- plan-following policy (C17)
+def explore_static(props=None):
+    """DynamicSchedulingFromPlan on hand-made static plans (the SHADOW planner is not importable): every task must execute on
+    the machine its plan assigned, however long that machine is busy"""
+    import simpy
+    import networkx as nx
+    from topsim.core.simulation import Simulation
+    from topsim.user.telescope import Telescope
+    from topsim.algorithms.planning import Planning
+    from topsim.core.planner import WorkflowPlan, WorkflowStatus
+    from topsim.core.task import Task
+    from topsim.user.schedule.dynamic_plan import DynamicSchedulingFromPlan
+    from topsim.core import task as task_mod
+
+    class StaticPlanning(Planning):
+        def __init__(self, assign, wf):
+            super().__init__('static')
+            self.assign, self.wf = assign, wf
+
+        def __str__(self):
+            return 'StaticPlanning'
+
+        def to_df(self):
+            pass
+
+        def generate_plan(self, clock, cluster, buffer, observation, max_ingest):
+            g = nx.DiGraph()
+            for n in self.wf['nodes']:
+                g.add_node(n['id'], **{k: v for k, v in n.items() if k != 'id'})
+            for s, d, v in self.wf['edges']:
+                g.add_edge(s, d, transfer_data=v)
+            speeds = {m.id: (m.cpu, m.bandwidth) for m in cluster.machines}
+            tasks, mapping, eft = [], {}, {}
+            order = list(nx.topological_sort(g))
+            for i, node in enumerate(order):
+                mid = self.assign(i, node, sorted(speeds))
+                cpu, bw = speeds[mid]
+                rt = max(1, math.floor(g.nodes[node]['comp'] / cpu), math.floor(g.nodes[node].get('task_data', 0) / bw))
+                est = max([eft[p] for p in g.predecessors(node)], default=0)
+                eft[node] = est + rt
+                tid = f"{observation.name}_{clock}_{node}"
+                t = Task(tid, est, eft[node], mid, [f"{observation.name}_{clock}_{p}" for p in g.predecessors(node)],
+                         g.nodes[node]['comp'], g.nodes[node].get('task_data', 0),
+                         {f"{observation.name}_{clock}_{p}": g.pred[node][p]['transfer_data'] for p in g.pred[node]}, None, gid=node)
+                mapping[node] = t
+                tasks.append(t)
+            return WorkflowPlan(observation.name, 0, max(eft.values(), default=0), tasks, order, WorkflowStatus.SCHEDULED, max_ingest,
+                                nx.relabel_nodes(g, mapping))
+
+    assigns = {'all-on-m1': lambda i, n, ms: 'm1', 'round-robin': lambda i, n, ms: ms[i % len(ms)], 'all-on-m0': lambda i, n, ms: 'm0'}
+    out, runs = [], 0
+    for sc in SCENARIOS[:4]:
+        for wfname in ('chain', 'fork', 'diamond'):
+            for an, assign in assigns.items():
+                runs += 1
+                d = tempfile.mkdtemp(prefix='topsim-simmon-', dir=os.environ.get('VERIF_SCRATCH', '/var/tmp'))
+                tag = f"static/{sc['name']}/{wfname}/{an}"
+                started = {}
+                orig = task_mod.Task.do_work
+
+                def do_work(self_, env, machine, predecessor_allocations=None, _st=started):
+                    _st.setdefault(self_.id, []).append((env.now, getattr(machine, 'id', None)))
+                    yield from orig(self_, env, machine, predecessor_allocations)
+                task_mod.Task.do_work = do_work
+                try:
+                    p = mkcfg(d, sc['obs'], WORKFLOWS[wfname], machines=MACHINES_TWIN, max_ingest=sc.get('max_ingest', 2))
+                    env = simpy.Environment()
+                    sim = Simulation(env, p, Telescope, StaticPlanning(assign, WORKFLOWS[wfname]), 'static', DynamicSchedulingFromPlan(), timestamp=0)
+                    sim.start(400)
+                    planned = {}
+                    for t in sim.cluster._tasks['finished']:
+                        if '_ingest_' not in t.id:
+                            planned[t.id] = t
+                    nexp = len(sc['obs']) * len(WORKFLOWS[wfname]['nodes'])
+                    if not sim.is_finished() or len(planned) != nexp:
+                        out.append(('C05?', tag, f"not finished within 400 steps ({len(planned)}/{nexp} workflow tasks done)"))
+                    for tid, execs in started.items():
+                        if '_ingest_' in tid:
+                            continue
+                        t = planned.get(tid)
+                        if len(execs) != 1:
+                            out.append(('C04', tag, f"task {tid} executed {len(execs)} times"))
+                        want = assign(WORKFLOWS[wfname]['nodes'].index(next(n for n in WORKFLOWS[wfname]['nodes'] if str(n['id']) == tid.rsplit('_', 1)[1])) if False else 0, 0, ['m0']) if False else None
+                    # the planned machine is the one recorded at plan time: recompute it from the assignment rule
+                    order = {}
+                    import networkx as _nx
+                    g = _nx.DiGraph()
+                    g.add_nodes_from(n['id'] for n in WORKFLOWS[wfname]['nodes'])
+                    g.add_edges_from((s, dd) for s, dd, v in WORKFLOWS[wfname]['edges'])
+                    topo = list(_nx.topological_sort(g))
+                    ms = sorted(MACHINES)
+                    for tid, execs in started.items():
+                        if '_ingest_' in tid:
+                            continue
+                        node = int(tid.rsplit('_', 1)[1])
+                        want = assign(topo.index(node), node, ms)
+                        for (when, mid) in execs:
+                            if mid != want:
+                                out.append(('C17', tag, f"task {tid} planned on {want} executed on {mid} at t={when}"))
+                except Exception as e:
+                    out.append(('RUN', tag, f"{type(e).__name__}: {e}"))
+                finally:
+                    task_mod.Task.do_work = orig
+                    shutil.rmtree(d, ignore_errors=True)
+    fails = [f for f in out if props is None or f[0] in props or f[0] == 'RUN']
+    return dict(runs=runs, failures=fails)
